@@ -1063,6 +1063,100 @@ def analyse(ctx, i, found, exprs, cases, fq_exprs, fq_cases):
             ctx.count('nets with a repeated argument', n.op)
 
 
+def history_case(ctx, i, found):
+    """the analyses on a design that GROWS between calls: analyse, add logic (further read and write ports on the
+    memories that were already analysed, gates on existing wires, a new memory), analyse again -- each analysis must be
+    the graph-theoretic definition on the netlist as it is at that moment (nothing remembered from an earlier call).
+    Oracle: default_longest / brute-force fan-out and simple paths on a fresh Graph of the current block."""
+    rng = ctx.sub_rng('history', i)
+    pyrtl.reset_working_block()
+    block = pyrtl.working_block()
+    ins = [pyrtl.Input(rng.randint(2, 6), 'hi%d' % k) for k in range(3)]
+    aw = rng.randint(1, 3)
+    mems = [pyrtl.MemBlock(bitwidth=rng.randint(2, 9), addrwidth=aw, name='hm%d' % k, asynchronous=True,
+                           max_read_ports=None, max_write_ports=None) for k in range(2)]
+    if rng.random() < 0.7:
+        mems.append(pyrtl.RomBlock(bitwidth=rng.randint(2, 9), addrwidth=aw, name='hrom', asynchronous=True,
+                                   romdata=[rng.randrange(4) for _ in range(2 ** aw)], max_read_ports=None))
+    nout = [0]
+
+    def addr():
+        w = rng.choice(ins)
+        return w[:aw] if len(w) >= aw else w.zero_extended(aw)
+
+    def grow():
+        for _ in range(rng.randint(1, 3)):
+            m = rng.choice(mems)
+            o = pyrtl.Output(m.bitwidth, 'ho%d' % nout[0])
+            nout[0] += 1
+            rd = m[addr()]
+            o <<= rd ^ rng.choice(ins)[:1].zero_extended(m.bitwidth) if rng.random() < 0.5 else rd
+        if rng.random() < 0.6:
+            m = rng.choice([m for m in mems if not isinstance(m, pyrtl.RomBlock)])
+            d = rng.choice(ins)
+            m[addr()] <<= d[:m.bitwidth] if len(d) >= m.bitwidth else d.zero_extended(m.bitwidth)
+        if rng.random() < 0.5:
+            a, b = rng.choice(ins), rng.choice(ins)
+            w = max(len(a), len(b))
+            o = pyrtl.Output(w + 1, 'ho%d' % nout[0])
+            nout[0] += 1
+            o <<= a.zero_extended(w) + b.zero_extended(w)
+
+    grow()
+    for stage in range(3 if ctx.tier == 'quick' else 5):
+        g = Graph(block)
+        rep = {'seed': ctx.seed, 'history_case': i, 'stage': stage, 'tier': ctx.tier, 'nets': net_strs(g.nets),
+               'memories(name: #read nets, #write nets)': {m.name: [len(g.readports.get(m.id, [])),
+                                                                    len(g.writeports.get(m.id, []))] for m in mems}}
+
+        def viol(sig, what, extra):
+            size = len(g.nets) + 1000 * stage
+            if sig not in found or found[sig][0] > size:
+                found[sig] = (size, what, dict(rep, **extra))
+        try:
+            td = TimingAnalysis()
+        except Exception as e:
+            viol('timing:raises', 'TimingAnalysis raised %r on an API-built design (analysis #%d of a growing block)'
+                 % (e, stage + 1), {})
+            return
+        lpd = default_longest(g)
+        wires = sorted(block.wirevector_set, key=lambda w: w.name)
+        ctx.case(('history', i, stage), nontrivial=True,
+                 sample={'history_case': i, 'stage': stage, 'memories': rep['memories(name: #read nets, #write nets)']}
+                 if i == 0 else None)
+        ctx.count('history stages (analysis number on the same growing block)', stage + 1)
+        for w in wires:
+            if w not in td.timing_map or not close(td.timing_map[w], lpd(w)):
+                viol('timing:default-delays', 'analysis #%d of a block that grew since the previous analysis: default-table '
+                     'timing_map[%s] = %r, longest path under the documented default gate delays on the CURRENT netlist = %r'
+                     % (stage + 1, w.name, td.timing_map.get(w), lpd(w)),
+                     {'wire': w.name, 'expected': lpd(w), 'got': td.timing_map.get(w)})
+                break
+        dmax = max(lpd(w) for w in wires)
+        if not close(td.max_length(), dmax):
+            viol('timing:default-max', 'analysis #%d of a growing block: max_length %r, expected %r'
+                 % (stage + 1, td.max_length(), dmax), {})
+        for w in wires:
+            fo = pa.fanout(w)
+            exp = sum(1 for n in g.nets for a in n.args if a is w)
+            if fo != exp:
+                viol('fanout:wrong', 'analysis #%d of a growing block: fanout(%s) = %r, the netlist has %d reads'
+                     % (stage + 1, w.name, fo, exp), {'wire': w.name})
+                break
+        outs = [w for w in wires if isinstance(w, pyrtl.Output)]
+        for s_ in ins:
+            d_ = rng.choice(outs)
+            try:
+                got = pyrtl.paths(s_, d_)[s_][d_]
+                exp = simple_paths(g, s_, d_, [20000])
+            except TooBig:
+                continue
+            if sorted(tuple(id(n) for n in p) for p in got) != sorted(tuple(id(n) for n in p) for p in exp):
+                viol('paths:wrong-set', 'analysis #%d of a growing block: paths(%s, %s) returns %d paths, the netlist has %d '
+                     'simple paths' % (stage + 1, s_.name, d_.name, len(got), len(exp)), {'src': s_.name, 'dst': d_.name})
+        grow()
+
+
 def run(ctx, only=None):
     n = 100 if ctx.tier == 'quick' else 1500
     found, exprs, cases, fq_exprs, fq_cases = {}, [], [], [], []
@@ -1084,6 +1178,15 @@ def run(ctx, only=None):
                                                                 'traceback': tb})
             else:
                 ctx.model_mismatch('harness error in case %d: %s' % (i, tb), {'seed': ctx.seed, 'case': i})
+    if only is None or any(isinstance(k, str) for k in only):
+        for hi in range(8 if ctx.tier == 'quick' else 80):
+            try:
+                history_case(ctx, hi, found)
+            except Exception as e:
+                import traceback
+                ctx.model_mismatch('harness error in history case %d: %s' % (hi, traceback.format_exc()[-1200:]),
+                                   {'seed': ctx.seed, 'history_case': hi})
+        pyrtl.reset_working_block()
     for sig, (size, what, rep) in sorted(found.items()):
         ctx.spec_violation(sig, what, rep)
 
@@ -1190,5 +1293,11 @@ def run(ctx, only=None):
 
 def replay(ctx, data):
     rep = data.get('replay', data)
-    print('replaying case %r (%s)' % (rep.get('case'), rep.get('kind')))
+    print('replaying case %r (%s)' % (rep.get('case', rep.get('history_case')), rep.get('kind')))
+    if 'history_case' in rep:
+        found = {}
+        history_case(ctx, rep['history_case'], found)
+        for sig, (size, what, r) in sorted(found.items()):
+            ctx.spec_violation(sig, what, r)
+        return
     run(ctx, only=[rep['case']])
